@@ -152,6 +152,7 @@ class Kernel:
         self.spin_count = 0
         self.spin_progress = -1
         self.spin_limit = 300
+        self.spin_hops = 0
         self.livelock = False
         self.abstract_states = set()
         self.idle_states = 0
@@ -542,14 +543,28 @@ class Kernel:
             if self.spin_count >= self.spin_limit:
                 # only a livelock if nobody else can run and no event is pending
                 others = [t for t in self.threads if t is not self.current and self._is_runnable(t)]
-                if not others and self._next_deadline(active_only=True) is None:
+                nxt = self._next_deadline(active_only=True)
+                if not others and nxt is None:
                     self.livelock = True
                     self.log("livelock", signature)
                     self._finish("livelock")
+                elif not others:
+                    # a busy-wait: the loop keeps getting the same answer from select at once, nothing else can run
+                    # and nothing changes until the next timed event.  On a real machine that burns wall-clock time;
+                    # here the clock is moved on (in growing, bounded hops, never past the next timed event) so that
+                    # timeouts inside and around the spinning loop still come due within the step bound.
+                    hop = min(0.25 * (2 ** min(self.spin_hops, 4)), 4.0)
+                    self.spin_hops += 1
+                    self.now = max(self.now, min(nxt, self.now + hop))
+                    self.probe("spin_fast_forward")
+                    self.spin_count = 0
+                    if self.now - self.t0 > self.horizon:
+                        self._finish("horizon")
                 else:
                     self.spin_count = 0
         else:
             self.spin_count = 0
+            self.spin_hops = 0
             self.spin_progress = self.progress
             self._spin_sig = signature
 
